@@ -89,8 +89,9 @@ def oracle_case(params, events):
                 return dict(event=idx, what="empty=0 while the queue holds no item (would yield an item it does not hold)", line=line), st
             if peek != str(q[0][0]):
                 return dict(event=idx, what=f"peek shows {peek}, head of queue is {q[0][0]} (loss / duplication / reordering)", line=line), st
-        elif q and oe and popEdges - q[0][1] > L + 1:
-            return dict(event=idx, what=f"head accepted {popEdges - q[0][1]} pop-clock edges ago still not visible (latency {L})", line=line), st
+        elif q and oe and popEdges - q[0][1] >= L - 1:
+            # configured latency: the head must be visible from the (L-1)th pop-clock edge after its acceptance on
+            return dict(event=idx, what=f"head item accepted {popEdges - q[0][1]} pop-clock edges ago is still not visible (configured latency {L})", line=line), st
         if af == "0" and lvlF < cap and not (len(q) + lvlF < cap):
             return dict(event=idx, what=f"almostFull({lvlF}) low with {len(q)} of {cap} used", line=line), st
         if ae == "0" and not (len(q) > lvlE):
@@ -220,7 +221,10 @@ def oracle_other(path):
                     if took_in:
                         Q.append(data)
                     if took_out:
-                        Q.popleft(); state["delivered"] += 1
+                        if Q:
+                            Q.popleft(); state["delivered"] += 1
+                        else:
+                            bad = "output beat taken although nothing is stored or offered"
             elif a[0] == "a":
                 pe, ps, data, oe, os_ = int(a[1]), int(a[2]), int(a[3]), int(a[4]), int(a[5])
                 full, empty, pd = o
@@ -347,6 +351,15 @@ def main():
                 agg = new_agg(); mm, ov, lv, xl, sm = [], [], [], [], []
                 compare(impl, model, agg, mm, ov, lv, xl, sm)
                 still = mm + ov + lv + xl
+        elif cline and cline.startswith("T"):
+            # other FIFO flavours are regenerated from (seed, tier) by the harness' `other` mode
+            oimpl = WORK / "replay_other.txt"
+            rc, out = run_harness(exe, ["other", str(rp.get("seed", seed)), rp.get("tier", tiername), str(oimpl)])
+            if rc != 0:
+                still.append(f"harness other rc={rc}: {out[-300:]}")
+            else:
+                _, _, ov, _, _ = oracle_other(oimpl)
+                still = [v for v in ov if v["case"] == cline]
         else:
             still.append("replay names no concrete case (theorem / build level failure): run the check itself")
         print(json.dumps(dict(replay=cline, still_failing=bool(still), details=still[:2]), indent=1, default=str))
@@ -468,7 +481,8 @@ def main():
     if other_viol:
         v = other_viol[0]
         emit(dict(property=CID, kind="other-fifo-oracle", case=v["case"], line_no=v["line_no"], observed=v["line"], what=v["what"],
-                  expected="queue (with checkpoints for TransactionalFifo) semantics", n=len(other_viol)), tag="other")
+                  expected="queue (with checkpoints for TransactionalFifo) semantics", n=len(other_viol), seed=seed, tier=tiername,
+                  how_to_replay="checks/C15.py --replay <this file>"), tag="other")
 
     # ---------------- evidence
     cov = rep.cov
